@@ -276,6 +276,18 @@ def rule_preen(repo, chk):
     disc = [n for n in g.nodes if n.kind == 'stmt' and any(r == 'self' for r, _c in pat.method_calls(n.ast, 'discard'))]
     ok = bool(disc) and all(any(k == 'except' for k, _a in n.ctx) for n in disc)
     chk.ob('f', f.ref, 'a descriptor whose probe fails is discarded', ok, loc(f, f.node), discr='preen-discards')
+    # … and its owner is told first (it holds state for it and would never see a disconnect otherwise) — except the poller's own control descriptor
+    lv = None
+    for n in walk_no_defs(f.node):
+        if isinstance(n, ast.For) and isinstance(n.target, ast.Name) and not isinstance(n.iter, (ast.Tuple, ast.List)):
+            lv = n.target.id
+    for dn in disc:
+        told = [n for n in g.nodes if n.kind == 'stmt' and any(pat.event_ctor_name(e) == '_disconnect' and e.args and src(e.args[0]) == lv for _c, _r, e in pat.fire_calls(n.ast))]
+        p = Q.reachable_without(g, dn, avoid_node=lambda n: n in told, avoid_edge=pat.test_edge(
+            lambda tt, pol: pat.fact_matches(pat.compare_fact(tt, pol), lv, ('==', 'is'), 'self._ctrl_recv') or
+            pat.fact_matches(pat.compare_fact(tt, pol), lv, ('not in',), 'self._targets')), start=[n for n in g.nodes if n.kind == 'except'][0] if any(n.kind == 'except' for n in g.nodes) else None)
+        chk.ob('f', f.ref, 'the owner of a descriptor that is dropped is sent _disconnect first (as Poll/EPoll do on POLLNVAL/HUP)', bool(told) and p is None, loc(f, dn.ast),
+               path=pat.path_lines(p) if p else None, discr='preen-notifies-owner')
     ge = repo.func(POLLERS, 'Select._generate_events')
     calls = [c for r, c in pat.method_calls(ge.node, '_preenDescriptors') if r == 'self']
     chk.ob('f', ge.ref, 'select() failures caused by bad descriptors lead to pruning', len(calls) >= 2, loc(ge, ge.node), discr='preen-called', nontrivial=False)
